@@ -372,7 +372,7 @@ def project_wq(raw, napp):
     """every hooked access to the work queue's flags word, in memory order -> action lines of Fork/WqPause.v (wqexec).  The flags word is recognised as the location
     on which a thread raises PAUSE (or ... v=4); accesses by application threads are the forking side's, accesses by library-created threads the worker's;
     CH = the fork child re-creates the worker (note forkchild followed by the creation of a thread)."""
-    PAUSE, PAUSED = 4, 8
+    PAUSE, PAUSED = gen_const('wq_pause', 4), gen_const('wq_paused', 8)      # URCU_WORKQUEUE_PAUSE / _PAUSED as the translator read them from src/workqueue.h
     flags = None
     for l in raw.splitlines():
         p = l.split()
